@@ -96,24 +96,50 @@ VF_EXPORT long vf_wk_sizeof(int kind) {
     return -1;
 }
 
-// attribute lists: exact-size heap array
+// attribute lists: exact-size heap array under sanitizers; otherwise the array is followed by two "stale but plausible" entries, as a
+// longer list that was cut down by lowering `length` would leave them (next slot indices, junk values): code that looks one entry past
+// the end finds something that can match a real slot instead of heap noise
 struct VfAttrs {
     embedded_pairing_wkdibe_attributelist_t list;
+    bool shared;      // attrs points into another list's array (prefix view)
 };
 static VfAttrs* mk_attrs(const uint8_t* ids, const uint32_t* idxs, const uint8_t* omits, size_t n, int omit_all) {
     VfAttrs* a = (VfAttrs*) malloc(sizeof(VfAttrs));
-    a->list.attrs = n ? (embedded_pairing_wkdibe_attribute_t*) malloc(n * sizeof(embedded_pairing_wkdibe_attribute_t)) : nullptr;
+    size_t extra = vf_guard_slots ? 2 : 0;
+    a->shared = false;
+    a->list.attrs = (n + extra) ? (embedded_pairing_wkdibe_attribute_t*) malloc((n + extra) * sizeof(embedded_pairing_wkdibe_attribute_t)) : nullptr;
     for (size_t i = 0; i != n; i++) {
         memset(&a->list.attrs[i], 0, sizeof(a->list.attrs[i]));
         memcpy(&a->list.attrs[i].id, ids + 32 * i, 32);
         a->list.attrs[i].idx = idxs[i];
         a->list.attrs[i].omitFromKeys = omits[i] != 0;
     }
+    for (size_t i = n; i != n + extra; i++) {
+        memset(&a->list.attrs[i], 0, sizeof(a->list.attrs[i]));
+        memset(&a->list.attrs[i].id, 0x5A, 31);
+        a->list.attrs[i].idx = (n ? idxs[n - 1] : (uint32_t) -1) + 1 + (uint32_t) (i - n);
+        a->list.attrs[i].omitFromKeys = false;
+    }
     a->list.length = n;
     a->list.omitAllFromKeysUnlessPresent = omit_all != 0;
     return a;
 }
-static void rm_attrs(VfAttrs* a) { free(a->list.attrs); free(a); }
+static void rm_attrs(VfAttrs* a) { if (!a->shared) free(a->list.attrs); free(a); }
+// two lists handed to one call: when one is an entry-for-entry prefix of the other, the caller may well pass two views of one
+// array (same pointer, different lengths) - do that, so that code comparing pointers instead of contents is exercised
+static void share_prefix(VfAttrs* x, VfAttrs* y) {
+    VfAttrs* lo = x->list.length <= y->list.length ? x : y;
+    VfAttrs* hi = lo == x ? y : x;
+    if (lo->list.length == 0 || lo->shared || hi->shared) return;
+    for (size_t i = 0; i != lo->list.length; i++) {
+        const embedded_pairing_wkdibe_attribute_t& p = lo->list.attrs[i];
+        const embedded_pairing_wkdibe_attribute_t& q = hi->list.attrs[i];
+        if (p.idx != q.idx || p.omitFromKeys != q.omitFromKeys || memcmp(&p.id, &q.id, 32) != 0) return;
+    }
+    free(lo->list.attrs);
+    lo->list.attrs = hi->list.attrs;
+    lo->shared = true;
+}
 
 #define ATTR_ARGS(p) const uint8_t* p##ids, const uint32_t* p##idxs, const uint8_t* p##omits, size_t p##n, int p##all
 #define ATTR_MK(p) mk_attrs(p##ids, p##idxs, p##omits, p##n, p##all)
@@ -156,6 +182,7 @@ VF_EXPORT void vf_wk_qualify(void* out, void* params, void* sk, ATTR_ARGS(a), in
 VF_EXPORT void vf_wk_adjust_nd(void* sk, void* parent, ATTR_ARGS(f), ATTR_ARGS(t)) {
     VfAttrs* f = ATTR_MK(f);
     VfAttrs* t = ATTR_MK(t);
+    share_prefix(f, t);
     VfSk* s = (VfSk*) sk;
     VfSk* p = (VfSk*) parent;
     if (vf_use_cpp) wk::adjust_nondelegable(CPP(wk::SecretKey, &s->k), CCPP(wk::SecretKey, &p->k), CCPP(wk::AttributeList, &f->list), CCPP(wk::AttributeList, &t->list));
@@ -173,6 +200,7 @@ VF_EXPORT void vf_wk_precompute(void* pre, void* params, ATTR_ARGS(a)) {
 VF_EXPORT void vf_wk_adjust_pre(void* pre, void* params, ATTR_ARGS(f), ATTR_ARGS(t)) {
     VfAttrs* f = ATTR_MK(f);
     VfAttrs* t = ATTR_MK(t);
+    share_prefix(f, t);
     VfParams* p = (VfParams*) params;
     if (vf_use_cpp) wk::adjust_precomputed(CPP(wk::Precomputed, pre), CCPP(wk::Params, &p->p), CCPP(wk::AttributeList, &f->list), CCPP(wk::AttributeList, &t->list));
     else embedded_pairing_wkdibe_adjust_precomputed((embedded_pairing_wkdibe_precomputed_t*) pre, &p->p, &f->list, &t->list);
